@@ -2,6 +2,7 @@
 # runs every claimed check (tier from $1, default quick) in parallel and prints one line per property
 cd "$(dirname "$0")/.."
 TIER=${1:-quick}
+mkdir -p out
 python3 -c "
 import json
 for c in json.load(open('MANIFEST.json'))['checks']: print(c['property_id'])" | xargs -P ${2:-6} -I{} bash -c "./check {} --tier $TIER > out/run-{}.log 2>&1; echo \"{} rc=\$? \$(grep -c '^VIOLATION' out/run-{}.log) violations; \$(tail -1 out/run-{}.log | cut -c1-200)\""
